@@ -20,6 +20,7 @@ import (
 	"github.com/fido-device-onboard/go-fdo/serviceinfo"
 
 	"verifharness/cb"
+	"verifharness/srvexec"
 	"verifharness/world"
 )
 
@@ -31,6 +32,23 @@ type Case struct {
 	Level string `json:"level"` // wire | plain
 	Seed  int64  `json:"seed"`
 	Kind  string `json:"kind"`
+	Enc   int    `json:"enc,omitempty"`   // public key encoding in vouchers (0: X509)
+	Sweep bool   `json:"sweep,omitempty"` // deterministic single-point mutant number Seed (cb.Sweep) instead of a random one
+	// Level "signed" (positions 61 and 65, sweep only): the payload of the owner-signed COSE_Sign1 is
+	// mutated and re-signed with the owner key, so the mutant passes the device's signature check.
+}
+
+// mutate picks the mutant for a case.
+func (c Case) mutate(tree *cb.Node) ([]byte, string) {
+	if !c.Sweep {
+		return cb.Mutate(tree, mrand.New(mrand.NewSource(c.Seed)))
+	}
+	cases := cb.Sweep(tree, 3)
+	if len(cases) == 0 {
+		return tree.Encode(), "sweep:none n=0"
+	}
+	k := cases[int(c.Seed%int64(len(cases)))]
+	return k.Body, fmt.Sprintf("sweep:%s n=%d", k.What, len(cases))
 }
 
 // Event is the outcome.
@@ -75,9 +93,10 @@ type mutResponder struct {
 		protocol.Responder
 		CryptSession(ctx context.Context) (kex.Session, error)
 	}
-	c    Case
-	seen int32
-	what *string
+	c     Case
+	owner *world.Party
+	seen  int32
+	what  *string
 	hit  *bool
 	raw  *[]byte
 }
@@ -98,7 +117,26 @@ func (m *mutResponder) Respond(ctx context.Context, t uint8, msg io.Reader) (uin
 	if err != nil {
 		return rt, resp
 	}
-	b, what := cb.Mutate(tree, mrand.New(mrand.NewSource(m.c.Seed)))
+	if m.c.Level == "signed" {
+		// resp is a COSE_Sign1 signed by the owner: mutate its payload, sign again
+		n := tree.Untag()
+		if len(n.Kids) != 4 || n.Kids[2].Major != 2 {
+			return rt, resp
+		}
+		pt, err := n.Kids[2].Inner()
+		if err != nil {
+			return rt, resp
+		}
+		pb, what := m.c.mutate(pt)
+		key := m.owner.Key
+		out, err := srvexec.ResignRaw(enc, key, m.owner.Kind.PSS(), pb)
+		if err != nil {
+			return rt, resp
+		}
+		*m.what, *m.hit, *m.raw = "signed~"+what, true, out
+		return rt, cbor.RawBytes(out)
+	}
+	b, what := m.c.mutate(tree)
 	*m.what, *m.hit, *m.raw = what, true, b
 	return rt, cbor.RawBytes(b)
 }
@@ -114,7 +152,7 @@ func Run(run int, c Case) (ev Event) {
 	if kind == "" {
 		kind = world.P256
 	}
-	w := world.New(world.Options{Kind: kind, OwnerModules: func(context.Context, string, serviceinfo.Devmod, []string) []world.NamedOwnerModule {
+	w := world.New(world.Options{Kind: kind, Enc: protocol.KeyEncoding(c.Enc), OwnerModules: func(context.Context, string, serviceinfo.Devmod, []string) []world.NamedOwnerModule {
 		return []world.NamedOwnerModule{{Name: "m1", Mod: ownerMod{}}}
 	}})
 	defer w.Close()
@@ -131,12 +169,11 @@ func Run(run int, c Case) (ev Event) {
 		if int(atomic.AddInt32(&seen, 1))-1 != c.Nth {
 			return false
 		}
-		rng := mrand.New(mrand.NewSource(c.Seed))
 		tree, err := cb.DecodeAll(x.RespBody)
 		if err != nil {
 			tree = cb.Arr()
 		}
-		x.RespBody, what = cb.Mutate(tree, rng)
+		x.RespBody, what = c.mutate(tree)
 		hit, raw = true, x.RespBody
 		return false
 	}}
@@ -163,8 +200,8 @@ func Run(run int, c Case) (ev Event) {
 		ev.Outcome, ev.Err = "setup", err.Error()
 		return ev
 	}
-	if c.Level == "plain" {
-		mr := &mutResponder{inner: w.TO2, c: c, what: &what, hit: &hit, raw: &raw}
+	if c.Level == "plain" || c.Level == "signed" {
+		mr := &mutResponder{inner: w.TO2, c: c, owner: w.Owner, what: &what, hit: &hit, raw: &raw}
 		h := *(w.OwnerHandler)
 		h.TO2Responder = mr
 		w.OwnerHandler = &fdohttp.Handler{Tokens: h.Tokens, DIResponder: h.DIResponder, TO0Responder: h.TO0Responder, TO1Responder: h.TO1Responder, TO2Responder: mr}
